@@ -66,7 +66,7 @@ class C04(Check):
                    "NUL is outside the alphabet (it is the instruction separator of the file format)",
                    "examples that do not terminate within 20 s under `run` are skipped and counted"]
     chunksize = 8
-    quick_cap_s = 50
+    quick_cap_s = 300
 
     def layers(self, tier):
         n = 3 if tier == "quick" else 4
